@@ -256,6 +256,7 @@ class Run:
         tasks: list[asyncio.Task | None] = [None] * n
         scripts: list[list] = [[] for _ in range(n)]
         cur_ops: list[dict | None] = [None] * n
+        nwrites = [0] * n
         pending: dict[int, bytes] = {}    # instance -> frame waiting for its reply
         order = list(scn.get("order", []))
 
@@ -268,6 +269,7 @@ class Run:
             if op.get("tick"):
                 self.clk.shift(op["tick"])
             scripts[k] = list(op["replies"])
+            nwrites[k] = 0
             if op["op"] in ("create_schedule", "get_schedules"):
                 # the specification needs the clock reading and zone rules in force at the call, not at generation time
                 import time as _t
@@ -294,6 +296,7 @@ class Run:
                 k = conn.tag
                 if k in pending and conn.sent_eof:
                     self.log(ev="Reply", c=k + 1, b=[], src="script")            # the read before this write returned b'' at once
+                nwrites[k] += 1
                 self.log(ev="Write", c=k + 1, b=list(data), clk=vnet.clk_ceil())
                 _store_if_create(data, self.devs[k])
                 pending[k] = data
@@ -335,6 +338,15 @@ class Run:
                 k = min(pending)
             frame = pending.pop(k)
             op = cur_ops[k]
+            if op.get("cancel_at") == nwrites[k] and tasks[k] is not None and not tasks[k].done():
+                # the caller gives up (cancellation / timeout) while waiting for this reply; the device never answers that frame
+                tasks[k].cancel()
+                await vnet.settle(3)
+                t = tasks[k]
+                tasks[k] = None
+                self.log(ev="Ret", c=k + 1, out="cancelled", exc="CancelledError", ok=False, r={})
+                start_next(k)
+                continue
             if op.get("tick_mid"):
                 self.clk.shift(op["tick_mid"])
             d = scripts[k].pop(0) if scripts[k] else {"t": "eof"}
@@ -352,6 +364,8 @@ class Run:
     async def _wrap(coro):
         try:
             return (await coro, None)
+        except asyncio.CancelledError:
+            raise
         except Exception as x:  # noqa: BLE001 - the class is what the specification judges
             return (None, x)
 
